@@ -22,14 +22,13 @@ ASSUMPTIONS = ['predicates only (no expected values); a raised exception is allo
 
 
 def _cholesky_ok(c, degenerate=False):
-    """positive definite; on degenerate data (singular sample covariance) an eigenvalue of +-1e-17 is
-    rounding noise either way: there the matrix must be positive semidefinite up to 1e-10 relative."""
+    """positive definite; a numerically singular matrix (a class collapsed onto <= D points) has a
+    smallest eigenvalue of +-1e-17, which is rounding noise either way: it must then be positive
+    semidefinite up to 1e-10 relative."""
     try:
         np.linalg.cholesky(c)
         return True
     except np.linalg.LinAlgError:
-        if not degenerate:
-            return False
         w = np.linalg.eigvalsh((c + c.T) / 2)
         return bool(np.isfinite(w).all() and w.min() >= -1e-10 * max(abs(w.max()), 1e-300))
 
@@ -158,7 +157,9 @@ def run_config(key):
         if bad:
             return viol(f'{model} model after iteration {i}: {bad}')
     if exc is not None:
-        if c['degenerate'] or not trace:
+        if c['degenerate'] or not trace or 'ill-defined empirical covariance' in str(exc):
+            # explicit exception: allowed (the Gaussian covariance guard also fires when EM collapses a
+            # class on regular data)
             return raised_ok(exc, evals=len(trace))
         return viol(f'{model}: fit raised on regular data after {len(trace)} iterations: {exc!r}')
     return ok(outcome=tol.digest(M.fields(model, trace[-1])[sorted(M.fields(model, trace[-1]))[0]]),
